@@ -101,6 +101,13 @@ func TargetAddr(s *simrt.Sim) conn.Addr {
 	}
 }
 
+// LiteralDomainAddr draws a target of the domain kind whose text happens to be an IP literal (what
+// a SOCKS5 front end sends for ATYP 3 + "192.0.2.1"). Protocols that carry the address kind
+// (SOCKS address encoding) must hand it on as a name.
+func LiteralDomainAddr(s *simrt.Sim) conn.Addr {
+	return conn.MustAddrFromDomainPort(Pick(s, []string{"192.0.2.1", "2001:db8::1", "::ffff:192.0.2.1", "10.1", "0.0.0.0"}), Pick(s, []uint16{0, 53, 443, 65535}))
+}
+
 // Pick returns one element of menu.
 func Pick[T any](s *simrt.Sim, menu []T) T { return menu[s.Choose(len(menu))] }
 
